@@ -70,6 +70,22 @@ pub fn menu(quick: bool) -> Vec<RbSpec> {
     }
     v.push(RbSpec::Aggregate(vec![]));
     v.push(RbSpec::Slice(vec![]));
+    // wide compositions (four to six components, rotated)
+    let wide: Vec<RbSpec> = vec![
+        RbSpec::Rbf(ArrSpec::Sporadic { t: 5, j: 0 }, CostSpec::Scalar(1)),
+        RbSpec::Rbf(ArrSpec::Sporadic { t: 7, j: 3 }, CostSpec::Scalar(2)),
+        RbSpec::Rbf(ArrSpec::Periodic { t: 4 }, CostSpec::Multiframe(vec![1, 3])),
+        RbSpec::Rbf(ArrSpec::Sporadic { t: 6, j: 5 }, CostSpec::Scalar(2)),
+        RbSpec::Rbf(ArrSpec::Curve { dmin: vec![0, 9] }, CostSpec::Curve(vec![4, 5, 7])),
+        RbSpec::Rbf(ArrSpec::Sporadic { t: 11, j: 0 }, CostSpec::Multiframe(vec![2, 1])),
+    ];
+    for n in 4..=wide.len() {
+        for rot in 0..n {
+            let comps: Vec<RbSpec> = (0..n).map(|k| wide[(k + rot) % n].clone()).collect();
+            v.push(RbSpec::Aggregate(comps.clone()));
+            v.push(RbSpec::Slice(comps));
+        }
+    }
     // the cost-model dimension exhaustively: every multiframe vector up to the stated length
     // over {0..3} (frames that average to the first one, zero-cost frames, ...), under bursty
     // arrivals, alone and as a component
